@@ -101,6 +101,52 @@ static void tridiagonal_qr_step(Scalar *diag, Scalar *subdiag, Index start, Inde
     return [g1, g2]
 
 
+# ------------------------------------------------------------------ UpperHessenbergSchur::upper_hessenberg_l1_norm
+def l1_norm(report):
+    """The scale of the Schur iteration: the zero-matrix early exit (`norm != 0`) and the deflation floor `norm * eps^2` are only right if the norm covers the
+    WHOLE upper Hessenberg part - diagonal, everything above it, and the sub-diagonal.  Coverage is stated for an arbitrary cell with a ghost visit counter."""
+    f = X.locate(SH, "upper_hessenberg_l1_norm", cls="UpperHessenbergSchur")
+    ml = re.search(r"for \(Index (\w+) = 0; \1 < (\w+); (?:\1\+\+|\+\+\1)\)", f.body)
+    if not ml:
+        raise X.ExtractionBreak("upper_hessenberg_l1_norm: column loop not recognised")
+    J, N = ml.group(1), ml.group(2)
+    defs = r'''
+Index g_r, g_c, g_cover;      /* ghost: an arbitrary cell and the number of times it entered the sum */
+/* x.col(j).segment(a, len).cwiseAbs().sum() (head(len) is segment(0, len)): Eigen's block assertion + coverage of the Skolem cell */
+static Scalar L1_SEG(const Mat *x, Index j, Index a, Index len)
+{ __CPROVER_assert(0 <= j && j < x->cols, "Eigen index assertion: column index in range");
+  __CPROVER_assert(0 <= a && 0 <= len && a + len <= x->rows, "Eigen block assertion: segment(start, n) within the column");
+  if (j == g_c && a <= g_r && g_r < a + len) g_cover++;
+  return NONNEG_SCALAR(); }
+'''
+    rules = [("braces", r"(for \(Index %s = 0; %s < %s; (?:%s\+\+|\+\+%s)\))\s*([^{};]+;)" % (J, J, N, J, J), r"\1 { \2 }", {"min": 0, "max": 1}),
+             ("cols", r"\bx\.cols\(\)", "x->cols", {"min": 1}),
+             ("init", r"Scalar norm\(0\);", "Scalar norm = (Scalar)0;", {"max": 1}),
+             ("segment", r"x\.col\((\w+)\)\.segment\(((?:[^()]|\([^()]*\)|\((?:[^()]|\([^()]*\))*\))*)\)\.cwiseAbs\(\)\.sum\(\)",
+              lambda m: "L1_SEG(x, %s, %s)" % (m.group(1), m.group(2)), {"min": 0, "max": 1}),
+             ("head", r"x\.col\((\w+)\)\.head\(((?:[^()]|\([^()]*\))*)\)\.cwiseAbs\(\)\.sum\(\)", r"L1_SEG(x, \1, 0, \2)", {"min": 0, "max": 1})]
+    inv = ("__CPROVER_assigns(%(J)s, norm, g_cover) __CPROVER_loop_invariant(0 <= %(J)s && %(J)s <= %(N)s && norm >= (Scalar)0 && "
+           "g_cover == ((g_c < %(J)s && g_r <= g_c + 1) ? 1 : 0)) __CPROVER_decreases(%(N)s - %(J)s)") % {"J": J, "N": N}
+    t, R = cgen.emit(f, "upper_hessenberg_l1_norm_real", ret_c="Scalar", static=True, param_types={"x": "const Mat *"}, pre_rules=rules, loop_contracts={0: inv})
+    if R.fired.get("pre:segment", 0) + R.fired.get("pre:head", 0) != 1:
+        raise X.ExtractionBreak("upper_hessenberg_l1_norm: the column sum `x.col(j).segment(0, k).cwiseAbs().sum()` not recognised")
+    report["UpperHessenbergSchur::upper_hessenberg_l1_norm"] = R.fired
+    h = r'''
+#line 1 "harness/schur.l1_norm"
+void h(void) {
+  Index n = nondet_Index(); __CPROVER_assume(0 <= n && n <= NMAXS); Mat X_ = MAT_NEW(n, n);
+  g_r = nondet_Index(); g_c = nondet_Index(); __CPROVER_assume(0 <= g_r && g_r < n && 0 <= g_c && g_c < n); g_cover = 0;
+  Scalar r = upper_hessenberg_l1_norm_real(&X_);
+  __CPROVER_assert(g_cover == ((g_r <= g_c + 1) ? 1 : 0), "l1 norm: every entry of the upper Hessenberg part (diagonal, above it, and the sub-diagonal) enters the norm exactly once, nothing below it does");
+  __CPROVER_assert(r >= (Scalar)0, "l1 norm: non-negative");
+  CANARY();
+}
+'''
+    return [Group("schur.l1_norm", BASE + defs + t + h, "h", solver="cadical", defines=["SCALAR_DOUBLE"], timeout=300, functions=[SH + ":upper_hessenberg_l1_norm"],
+                  expect_classes=["loop_invariant_step", "l1 norm", "Eigen block assertion"],
+                  note="UNBOUNDED in n: coverage of the Hessenberg part by the norm that decides the zero-matrix exit and the deflation floor")]
+
+
 # ------------------------------------------------------------------ UpperHessenbergSchur::compute
 def schur(report):
     f = X.locate(SH, "compute", cls="UpperHessenbergSchur")
@@ -436,8 +482,11 @@ void h(void) {
             "__CPROVER_decreases(peeling_end - i)")
     inv1 = ("__CPROVER_assigns(i, __CPROVER_object_whole(x), __CPROVER_object_whole(g_cnt)) "
             "__CPROVER_loop_invariant(aligned_end <= i && i <= nrow && CNT_IS(0, i) && CNT_IS(1, i) && CNT_IS(2, i)) __CPROVER_decreases(nrow - i)")
+    # the scalar tail is a loop in the pinned code; if it has been rewritten as straight-line code there is no second loop to put a contract on, and the
+    # exactly-once coverage assertion of the harness decides (per packet width) whether the rewrite still covers every remaining row
+    nloops = len(cgen.LOOP_RX.findall(f.body))
     t2, R = cgen.emit(f, "apply_householder_right_simd", ret_c="void", static=True, param_types={"ess": "const Scalar *", "tau": "Scalar"}, pre_rules=simd,
-                      loop_contracts={0: inv0, 1: inv1})
+                      loop_contracts={k: v for k, v in {0: inv0, 1: inv1}.items() if k < nloops})
     report["UpperHessenbergSchur::apply_householder_right_simd"] = R.fired
     for ps in (1, 2, 4, 8, 16):
         groups.append(Group("schur.householder_right_simd.packet%d" % ps, BASE + HH_GHOST + t2 + harness, "h", solver="cadical",
@@ -485,7 +534,7 @@ void h(void) {
 
 def build(tier):
     report = {}
-    groups = tridiag(report) + [schur(report)] + schur_helpers(report) + householder_kernels(tier, report)
+    groups = tridiag(report) + [schur(report)] + l1_norm(report) + schur_helpers(report) + householder_kernels(tier, report)
     types, t, spec = hesseigen(report)
     h = spec.harness("h", "  HE Ev; HE *E = &Ev; E->m_n = nondet_Index(); __CPROVER_assume(0 <= E->m_n && E->m_n <= NMAXS); E->m_matT = MAT_NEW(E->m_n, E->m_n); E->kind = IVEC_NEW(E->m_n); E->m_eivalues = NULL;", "E")
     from props import skel
